@@ -137,7 +137,7 @@ def keyExtPattern : Option KeyFormat → Option String
   | some (.custom p) => some p
   | _ => none
 
-def keyListExt (format : Option KeyFormat) (p : String) : Outcome ListExt :=
+def keyListExt (format : Option KeyFormat) (p : LRPayload) : Outcome ListExt :=
   match format with
   | none => .ok (.foreignKey .uniqueString p)
   | some .id62 => .ok (.foreignKey .id62 p)
@@ -150,6 +150,12 @@ def entityPsm (e : EntityKey) : PsmKey :=
   | .primary b => { primaryKey := b, tenantType := e.tenantKey }
   | .foreign r => { foreignKey := some r, tenantType := e.tenantKey }
   | .none => { tenantType := e.tenantKey }
+
+/-- `st.Enum.ListRules.GetFiltering().GetDefaultFilters()` (nil-safe: absent messages give `[]`) -/
+def lrDefaultFilters (lr : ListRules) : List String :=
+  match lr with
+  | some p => p.defaultFilters
+  | none => []
 
 def buildField : Schema → Outcome ItemAnnot
   | .object ref flatten hasRules =>
@@ -171,8 +177,14 @@ def buildField : Schema → Outcome ItemAnnot
              | .err t => .err t
              | .panic w => .panic w) with
     | .ok (a, b) =>
-      .ok { kind := .enum decl, j5 := some .enum, list := lr.map .enum, psmKey := none,
-            validate := some (.enum (some true) a b) }
+      -- b6c593a: `filtering.defaultFilters` of the list rules must name options of the enum
+      -- (same spellings as in / notIn: with or without the prefix, case-sensitive)
+      match mapValues decl (lrDefaultFilters lr) with
+      | .ok _ =>
+        .ok { kind := .enum decl, j5 := some .enum, list := lr.map .enum, psmKey := none,
+              validate := some (.enum (some true) a b) }
+      | .err t => .err t
+      | .panic w => .panic w
     | .err t => .err t
     | .panic w => .panic w
   | .bool rules lr =>
